@@ -88,7 +88,7 @@ class Machine:
             'cmp_q_left': 0, 'cmp_q_right': 0, 'cmp_b_left': 0, 'cmp_b_right': 0, 'cmp_nan': 0,
             'cmp_frac': 0, 'cmp_nonzero_count': 0, 'print_char': 0, 'print_num': 0, 'print_frac': 0,
             'print_nan': 0, 'nan_pops': 0, 'nan_dropped_on_empty': 0, 'multi_operand': 0,
-            'fractions_made': 0, 'negatives_made': 0, 'push_stack0': 0, 'heart_after_heart': 0, 'jump_back_over_first_read': 0,
+            'fractions_made': 0, 'negatives_made': 0, 'push_stack0': 0, 'heart_after_heart': 0, 'jump_back_over_first_read': 0, 'heart_return_to_self': 0,
         }
         self.cmp_log = None   # optional list of (value, count, op, went_left)
         self.last_jump_was_heart = False
@@ -283,6 +283,8 @@ class Machine:
                 self.st['jumps'] += 1
                 if self.last_jump_was_heart:
                     self.st['heart_after_heart'] += 1
+                if self.latest == loc:
+                    self.st['heart_return_to_self'] += 1
                 self.last_jump_was_heart = True
                 return self.latest
         return loc + 1
